@@ -179,6 +179,8 @@ pub mod mio {
     pub struct Poll { _p: u8 }
     impl Poll {
         #[verifier::external_body]
+        pub fn new() -> (r: io::Result<Poll>) { unimplemented!() }
+        #[verifier::external_body]
         pub fn poll(&self, events: &mut Events, timeout: Option<super::Duration>) -> (r: io::Result<usize>) { unimplemented!() }
         #[verifier::external_body]
         pub fn register<E>(&self, handle: &E, token: Token, interest: Ready, opts: PollOpt) -> (r: io::Result<()>) { unimplemented!() }
